@@ -1,5 +1,6 @@
 """C07 - 3D rendering equals the brute-force heightmap (structural part)."""
 from .. import raster as R
+from .. import shapecore as SC
 
 
 def run(ctx):
@@ -16,3 +17,5 @@ def run(ctx):
     ctx.guarded(r, R.r_samples_voxel)
     r = ctx.rule("R4", "tile merge: bounds, greater depth wins, clamp compares with and assigns the grid depth", 6)
     ctx.guarded(r, R.r_assembly_voxel)
+    r = ctx.rule("R5", "the tile's box goes through the view as an interval: Transformable for Interval is the homogeneous interval transform", 3)
+    ctx.guarded(r, lambda rule: SC.r_transformable(rule, ("Interval",)))
